@@ -52,6 +52,35 @@ def match_edges(body, vcall, of):
     return out
 
 
+def validator_guards(ctx, prog, rid):
+    """guards of canonical_vector_state (C04.R3; shared with C05.R3: the full-token comparison is the read's linearisation point)."""
+    # ------------------------------------------------------------------ R3
+    ctx.rule(rid, 'the validator: canonical_vector_state produces Match only past the Some edge of cold_tier.current_coherence_token, the equal '
+                       'edge of canonical = mirrored token, and the true edge of embedding_matches_token(embedding, token)')
+    cv = ctx.body(rid, 'TieredEngine::canonical_vector_state')
+    cof = flow.Origin(cv)
+    cvv = flow.Origin(cv, stop_at_vars=True)
+    mblocks = [i for i, blk in enumerate(cv.blocks) for st in blk['s'] if st.get('rv', {}).get('k') == 'agg' and st['rv'].get('variant') == 'Match' and i in cv.live_blocks()]
+    G = {'some': [], 'equal': [], 'digest': []}
+    for i, blk in enumerate(cv.blocks):
+        if blk['t']['k'] == 'switch' and i in cv.live_blocks():
+            for tg, p in flow.switch_edge_predicates(cv, i, cvv):
+                if re.match(r'^variant\(HnswBackend::current_coherence_token\(.*arg:doc_id\)\) = Some$', p):
+                    G['some'].append((i, tg))
+                if re.match(r'^eq\[.*(canonical_coherence|current_coherence_token).*arg:mirrored_coherence\]$|^eq\[arg:mirrored_coherence, .*(canonical_coherence|current_coherence_token).*\]$', p):
+                    G['equal'].append((i, tg))
+                if re.match(r'^bool\[coherence::embedding_matches_token\(arg:mirrored_embedding, arg:mirrored_coherence\)\]$', p):
+                    G['digest'].append((i, tg))
+    for nm, es in G.items():
+        r0 = cv.reach([0], avoid_edges=es)
+        ctx.inst(rid, cv.short, 'Match only past the %s guard' % nm, bool(es) and bool(mblocks) and not any(x in r0 for x in mblocks),
+                 'guard edges %s; Match built at %s' % (es, mblocks))
+    em = ctx.body(rid, 'coherence::embedding_matches_token')
+    r = flow.render(flow.Origin(em, stop_at_vars=True).of_local(0))
+    ctx.inst(rid, em.short, 'compares the digest of the payload with the token\'s digest', 'digest_embedding(arg:embedding)' in r and 'VectorCoherenceToken.digest' in r, 'returns %s' % r[:140])
+
+
+
 def run(ctx, prog):
     ctx.not_decided = ['collision behaviour of the 128-bit integrity digest', 'operation histories / configurations (cache strategy × capacity × drains)']
     # ------------------------------------------------------------------ R1
@@ -204,30 +233,7 @@ def run(ctx, prog):
             ok = bool(mroots) and all(c is not None and c.callee and re.search(r'HnswBackend::(bulk_fetch|bulk_fetch_with_coherence|fetch_metadata)$', c.callee) for c in mroots)
             ctx.inst('C04.R2', f.short, 'metadata of pair #%d is canonical' % k, ok, 'metadata from %s' % sorted(set(flow.short(c.callee) if c else '?' for c in mroots)))
 
-    # ------------------------------------------------------------------ R3
-    ctx.rule('C04.R3', 'the validator: canonical_vector_state produces Match only past the Some edge of cold_tier.current_coherence_token, the equal '
-                       'edge of canonical = mirrored token, and the true edge of embedding_matches_token(embedding, token)')
-    cv = ctx.body('C04.R3', 'TieredEngine::canonical_vector_state')
-    cof = flow.Origin(cv)
-    cvv = flow.Origin(cv, stop_at_vars=True)
-    mblocks = [i for i, blk in enumerate(cv.blocks) for st in blk['s'] if st.get('rv', {}).get('k') == 'agg' and st['rv'].get('variant') == 'Match' and i in cv.live_blocks()]
-    G = {'some': [], 'equal': [], 'digest': []}
-    for i, blk in enumerate(cv.blocks):
-        if blk['t']['k'] == 'switch' and i in cv.live_blocks():
-            for tg, p in flow.switch_edge_predicates(cv, i, cvv):
-                if re.match(r'^variant\(HnswBackend::current_coherence_token\(.*arg:doc_id\)\) = Some$', p):
-                    G['some'].append((i, tg))
-                if re.match(r'^eq\[.*(canonical_coherence|current_coherence_token).*arg:mirrored_coherence\]$|^eq\[arg:mirrored_coherence, .*(canonical_coherence|current_coherence_token).*\]$', p):
-                    G['equal'].append((i, tg))
-                if re.match(r'^bool\[coherence::embedding_matches_token\(arg:mirrored_embedding, arg:mirrored_coherence\)\]$', p):
-                    G['digest'].append((i, tg))
-    for nm, es in G.items():
-        r0 = cv.reach([0], avoid_edges=es)
-        ctx.inst('C04.R3', cv.short, 'Match only past the %s guard' % nm, bool(es) and bool(mblocks) and not any(x in r0 for x in mblocks),
-                 'guard edges %s; Match built at %s' % (es, mblocks))
-    em = ctx.body('C04.R3', 'coherence::embedding_matches_token')
-    r = flow.render(flow.Origin(em, stop_at_vars=True).of_local(0))
-    ctx.inst('C04.R3', em.short, 'compares the digest of the payload with the token\'s digest', 'digest_embedding(arg:embedding)' in r and 'VectorCoherenceToken.digest' in r, 'returns %s' % r[:140])
+    validator_guards(ctx, prog, 'C04.R3')
 
     # ------------------------------------------------------------------ R4
     ctx.rule('C04.R4', 'write-path order: TieredEngine::insert: cache_strategy.invalidate ≺ cold_tier.insert ≺ current_coherence_token ≺ '
